@@ -27,6 +27,7 @@ def dispatch (j : Json) : Except String Json := do
   | "wrapper" => opWrapper j
   | "river_wrap" => opRiverWrap j
   | "validate" => opValidate j
+  | "tree_run" => opTreeRun j
   | "ping" => pure (Json.mkObj [("pong", Json.bool true)])
   | o => .error s!"unknown op {o}"
 
